@@ -30,6 +30,14 @@ func raceLogPath() string {
 }
 
 func RacerMain() {
+	if len(os.Args) > 1 && os.Args[1] == "-cold" {
+		if !RaceEnabled {
+			fmt.Fprintln(os.Stderr, "racer: not built with -race")
+			os.Exit(3)
+		}
+		ColdMain(os.Args[2:])
+		return
+	}
 	if len(os.Args) != 3 {
 		fmt.Fprintln(os.Stderr, "usage: racer <cases> <results>   (GORACE=log_path=... halt_on_error=0)")
 		os.Exit(2)
